@@ -27,6 +27,10 @@ class Flow:
     def __init__(self):
         self.steps = []  # (opname, reply)
         self.failed_at = None
+        # outputs default to None so that a monitor can test `.ok` after the fact instead of crashing on a missing attribute
+        self.file_h = self.file = self.rupl = self.rreq = self.rresp = self.export_key = self.server_s_pk = None
+        self.creq = self.cresp = self.cfin = self.session_key_c = self.session_key_s = None
+        self.clogin_state = self.slogin_state = self.creg_state = None
 
     def add(self, name, r):
         self.steps.append((name, r))
